@@ -390,6 +390,32 @@ func (w *World) flushDescribeLines() {
 // therefore not folded in.
 func (w *World) noteDescribe(c *Call, out *autoscaling.DescribeAutoScalingGroupsOutput) {
 	if c.Group != "" {
+		answered := map[string]bool{}
+		for _, g := range out.AutoScalingGroups {
+			name := awsapi.StringValue(g.AutoScalingGroupName)
+			answered[name] = true
+			k := w.known[name]
+			if k == nil {
+				continue
+			}
+			same := k.Min == awsapi.Int64Value(g.MinSize) && k.Max == awsapi.Int64Value(g.MaxSize) && k.Desired == awsapi.Int64Value(g.DesiredCapacity) && len(k.Instances) == len(g.Instances)
+			for _, i := range g.Instances {
+				if _, ok := k.Instances[awsapi.StringValue(i.InstanceId)]; !ok {
+					same = false
+				}
+			}
+			if !same {
+				k.Ambiguous = true
+				w.markAmbiguous(name)
+				w.stats.Probe("known-ASG model ambiguous (a describe outside Refresh answered differently)")
+			}
+		}
+		for _, name := range strings.Split(c.Target, ",") {
+			if k := w.known[name]; k != nil && !answered[name] {
+				k.Ambiguous = true
+				w.markAmbiguous(name)
+			}
+		}
 		return
 	}
 	for _, g := range out.AutoScalingGroups {
@@ -398,6 +424,12 @@ func (w *World) noteDescribe(c *Call, out *autoscaling.DescribeAutoScalingGroups
 			k.Instances[awsapi.StringValue(i.InstanceId)] = fmt.Sprintf("aws:///%s/%s", awsapi.StringValue(i.AvailabilityZone), awsapi.StringValue(i.InstanceId))
 		}
 		w.known[awsapi.StringValue(g.AutoScalingGroupName)] = k
+	}
+}
+
+func (w *World) markAmbiguous(asg string) {
+	if w.gscan != nil && w.asgOfCtx() == asg {
+		w.gscan.KnownAmbiguous = true
 	}
 }
 
